@@ -50,6 +50,11 @@ func c06Predicates(t *rapid.T) {
 			violation(t, "C06", "predicate:slot", "filters %s: FilterSlot(%d) (key %q) pass=%v, want %v", desc, slot, k, got, want)
 			return
 		}
+		// the composition the full-sync path evaluates: the slot filter applied to the tool's own slot of the key
+		if got, want := !filter.FilterSlot(int(utils.KeyToSlot(k))), f.slotPass(k); got != want {
+			violation(t, "C06", "predicate:slot-of-key", "filters %s: key %q (cluster slot %d): FilterSlot(KeyToSlot(key)) pass=%v, want %v", desc, k, slot, got, want)
+			return
+		}
 	}
 	for _, db := range []int{0, 1, 2, 3, 10, 11, 12, 15, 19, 100, 101, 110, rapid.IntRange(0, 200).Draw(t, "db")} {
 		if got, want := !filter.FilterDB(db), f.dbPass(db); got != want {
@@ -76,9 +81,10 @@ type c06Key struct {
 }
 
 type c06Space struct {
-	keys    []c06Key
-	scripts int
-	filt    filterConf
+	keys     []c06Key
+	incrCmds []int // per key: which command creates it in the incremental path
+	scripts  int
+	filt     filterConf
 }
 
 func (s c06Space) String() string {
@@ -99,6 +105,7 @@ func drawC06Space(t *rapid.T) c06Space {
 		}
 		seen[k.key] = true
 		s.keys = append(s.keys, k)
+		s.incrCmds = append(s.incrCmds, rapid.IntRange(0, 3).Draw(t, "incrCmd"))
 	}
 	s.scripts = rapid.IntRange(0, 2).Draw(t, "scripts")
 	var names []string
@@ -247,7 +254,9 @@ func c06Paths(t *rapid.T) {
 		res := logcap.Run(func() {
 			run.VerifRestoreRDBFile(0, bufio.NewReader(bytes.NewReader(rdbBytes)), []string{srv.Addr()}, "auth", tgtSentinel, int64(len(rdbBytes)), false)
 		})
-		if ab := logcap.Cap.TakeAbortsOf(func(a logcap.Abort) bool { return strings.Contains(a.Msg, "routine[") || strings.Contains(a.Msg, "restore") }); len(ab) > 0 || !res.Completed {
+		if ab := logcap.Cap.TakeAbortsOf(func(a logcap.Abort) bool {
+			return strings.Contains(a.Msg, "routine[") || strings.Contains(a.Msg, "restore")
+		}); len(ab) > 0 || !res.Completed {
 			srv.Close()
 			violation(t, "C06", "path:restore:failed", "%s: restore failed: %v %v", s, res, ab)
 			return
@@ -269,9 +278,19 @@ func c06Paths(t *rapid.T) {
 			encodeCmd(&buf, argv)
 			st.cmds = append(st.cmds, srcCmd{argv: argv, end: int64(buf.Len())})
 		}
-		for _, k := range s.keys {
+		for i, k := range s.keys {
 			add(bb("select", strconv.Itoa(k.db)))
-			add(bb("set", k.key, "v:"+k.key))
+			// commands of different arity, all of which create the key (INCR: the key is the only argument)
+			switch s.incrCmds[i] {
+			case 0:
+				add(bb("set", k.key, "v:"+k.key))
+			case 1:
+				add(bb("incr", k.key))
+			case 2:
+				add(bb("rpush", k.key, "a", "b"))
+			default:
+				add(bb("append", k.key, "x"))
+			}
 		}
 		add(bb("select", "0"))
 		add(bb("OPINFO", "x"))
